@@ -37,6 +37,11 @@ func (e *kvElection) watchLoop(ctx context.Context) {
 		case <-ctx.Done():
 			return
 		case entry, ok := <-watcher.Updates():
+			if ctx.Err() != nil {
+				// select picks at random among ready cases: a stopped election must not act on
+				// one more notification (it could start an acquisition)
+				return
+			}
 			if !ok {
 				log := e.getLogger()
 				log.Debug("watch_closed",
@@ -51,6 +56,9 @@ func (e *kvElection) watchLoop(ctx context.Context) {
 			}
 			e.handleWatchEvent(entry)
 		case <-checkTicker.C:
+			if ctx.Err() != nil {
+				return
+			}
 			// Periodic check: if we're a follower and key doesn't exist, trigger re-election
 			// This handles cases where NATS watchers don't send deletion events
 			if !e.IsLeader() {
